@@ -1,7 +1,10 @@
 """Shared orchestration for the properties decided on the instruction-set specification: record real
 single-instruction executions of a family of handlers (isa_rec fam mode) and validate them with TLC
 (IsaTrace: complete post-state + ordered access list + outcome against TeakCore.CoreCycle)."""
+import json
 import os
+
+import vlib
 
 
 def record_family(ck, names, k, tag, parts=16, seedoff=0):
@@ -47,7 +50,73 @@ def sweep_all(ck, tag, k=1, seedoff=0):
         os.remove(f)
 
 
-def generator_clause(ck, parts=None, tag='gen'):
+def verifier_replay(ck, gen, tag):
+    """Specification -> implementation through the repository's own verifier: TLC (TvReplay.tla) loads generator cases the way
+    src/test_verifier loads them, runs one CoreCycle and prints the state the verifier compares; tools/tv_pack.py packs the
+    prediction as the `after` state of a TestCase file; the repository's test_verifier, built from the working tree, must pass
+    every case -- and must fail every case of a second file in which one compared field of the prediction was altered
+    (rotating over all 38 scalar fields and both memory windows), or the clause has lost its oracle."""
+    import concurrent.futures as cf
+    import shutil
+    ck.build('test_verifier')
+    tool = os.path.join(vlib.VERIF, 'tools', 'tv_pack.py')
+    shards = ck.pick(4, 12)
+    every = ck.pick(80, 24)               # one case in 20 (quick) / in 2 (thorough), interleaved over the shards
+    offs = [(ck.seed * 7 + k * (every // shards)) % every for k in range(shards)]
+    cases = [os.path.join(ck.work, '%s_tv_%02d.ndjson' % (tag, k)) for k in range(shards)]
+    ck.run_jobs(['python3 %s cases %s %s %d %d > %s.log' % (tool, gen, c, every, o, c) for c, o in zip(cases, offs)], timeout=900)
+
+    def one(c):
+        return c, vlib.run_tlc('TvReplay', 'Trace_Isa.cfg', '%s_%s' % (ck.tag, os.path.basename(c)[:-7]), workers=1, timeout=3000,
+                               env={'TRACE': c}, jvm=['-Xss256m'])
+    with cf.ThreadPoolExecutor(shards) as ex:
+        res = list(ex.map(one, cases))
+    total = ok = 0
+    for c, r in res:
+        if r.rc != 0 or r.matched is None or r.matched[0] != r.matched[1]:
+            raise vlib.Infra('TLC failed on %s:\n%s' % (c, r.out[-2000:]))
+        out = c.replace('.ndjson', '.tlc.txt')
+        with open(out, 'w') as f:
+            f.write(r.out)
+        good, alt = c.replace('.ndjson', '.good.bin'), c.replace('.ndjson', '.alt.bin')
+        p = vlib.sh('python3 %s pack %s %s %s %s %s' % (tool, gen, c, out, good, alt), timeout=900)
+        if p.returncode != 0:
+            raise vlib.Infra('tv_pack failed:\n' + p.stdout[-2000:])
+        info = json.loads(p.stdout.strip().splitlines()[-1])
+        ck.states += r.distinct
+        ck.transitions += r.generated
+        total += info['cases']
+        ok += info['predicted_ok']
+        if info['predicted_other'] or info['writes_outside_windows']:
+            keep = os.path.join(ck.replay_dir, os.path.basename(c))
+            shutil.copyfile(c, keep)
+            ck.violation('generator:replay_outcome', keep, 'the specification predicts an abort or a write outside the compared windows '
+                         'for %d / %d generator vectors of this file' % (info['predicted_other'], info['writes_outside_windows']))
+        pg = vlib.sh('%s %s' % (ck.bin('test_verifier'), good), timeout=1800)
+        verdict = (pg.stdout.strip().splitlines() or ['?'])[-1]
+        if verdict != info['expect'] or pg.returncode != 0:
+            keep = os.path.join(ck.replay_dir, os.path.basename(good))
+            shutil.copyfile(good, keep)
+            with open(keep + '.verifier.txt', 'w') as f:
+                f.write(pg.stdout[-200000:])
+            first = next((l for l in pg.stdout.splitlines() if l.startswith('Test case')), '')
+            ck.violation('replay:test_verifier', keep, 'the repository\'s test_verifier rejects states predicted by the specification: '
+                         'verdict "%s", expected "%s"; first: %s' % (verdict, info['expect'], first[:160]))
+        else:
+            # (only when the verifier agreed with every prediction: then a case of the altered file can pass only if the verifier
+            # does not look at the altered field)
+            pa = vlib.sh('%s %s' % (ck.bin('test_verifier'), alt), timeout=1800)
+            averdict = (pa.stdout.strip().splitlines() or ['?'])[-1]
+            if averdict != info['expect_altered']:
+                raise vlib.Infra('the repository\'s test_verifier no longer notices an altered field (verdict "%s", expected "%s"): '
+                                 'the replay clause has lost its oracle' % (averdict, info['expect_altered']))
+        for f in (good, alt):
+            os.remove(f)
+    ck.extra_cov['verifier_replay_cases'] = total
+    ck.extra_cov['verifier_replay_predicted_ok'] = ok
+
+
+def generator_clause(ck, parts=None, tag='gen', replay=False):
     """The project's own hardware-test generator (GenerateTestCasesToFile, about 82k vectors, 4 per enabled opcode), loaded the
     way the project's verifier loads them: IsaTrace additionally requires no abort, pc advance = decoded length, no second
     word for a one-word instruction, every data access inside the two compared windows.  parts: which of the 16 interleaved
@@ -58,6 +127,8 @@ def generator_clause(ck, parts=None, tag='gen'):
     shards = list(range(16)) if parts is None else list(parts)
     gfiles = [os.path.join(ck.work, '%s_%02d.ndjson' % (tag, i)) for i in shards]
     ck.run_jobs(['%s --mode genfile:%s:%d/16 --out %s' % (ck.bin('isa_rec'), gen, i, f) for i, f in zip(shards, gfiles)], timeout=900)
+    if replay:
+        verifier_replay(ck, gen, tag)
     os.remove(gen)
     ck.validate_traces('IsaTrace', 'Trace_Isa.cfg', gfiles, timeout=2400, sig_prefix='generator')
     ck.extra_cov['generator_vectors'] = sum(sum(1 for _ in open(f)) for f in gfiles)
